@@ -1120,7 +1120,11 @@ func run(args []string) error {
 	if f.Tier == "thorough" || f.Tier == "search" {
 		nfl = 400
 	}
-	o.Side["fieldlimbs_coq"] = runFieldLimbs(g.r, nfl, o, hist, caseJSON)
+	// own generator for the limb cases: kit.NewRng(seed) and NewRng(seed+1) are the SAME stream shifted by
+	// one draw (state = seed*phi + c, +phi per draw), and the rejection sampling above re-aligns them, so g.r
+	// is in a seed-independent state here; a scrambled output of the seed gives unrelated streams
+	flr := NewRng(NewRng(f.Seed).U64() ^ 0x66696c6462)
+	o.Side["fieldlimbs_coq"] = runFieldLimbs(flr, nfl, o, hist, caseJSON)
 	o.Side["cases"] = caseJSON
 	o.Side["distribution"] = hist.Sorted()
 	o.Side["samples"] = samples
